@@ -68,8 +68,20 @@ theorem C01_roundtrip_BLOB (bs : Str) (hb : ∀ x ∈ bs, x < 256) : readBack .b
 theorem C01_base64_decode_encode (bs : Str) (hb : ∀ x ∈ bs, x < 256) : b64dec (b64enc bs) = some bs :=
   b64dec_enc bs hb
 
-theorem C01_roundtrip_ForeignKey (i : Int) (h : int64 i = true) : readBack .fkInt (.int i) = .ok (.int i) :=
-  readBack_fk i h
+/-- ForeignKey to a class with int ids — whether the declaring class has int ids (`fkInt`) or str ids
+    (`fkIntS`): the column's SQLite type is `key_type` of the REFERENCED class's idType (extracted:
+    `SOForeignKey._idType`), so the id is stored and read as an integer -/
+theorem C01_roundtrip_ForeignKey (T : ColT) (hT : fkToInt T) (i : Int) (h : int64 i = true) :
+    readBack T (.int i) = .ok (.int i) :=
+  readBack_fk T hT i h
+
+/-- ForeignKey to a class with str ids, declared in a class with int ids: the column is TEXT, so every
+    NUL-free id ('007', '1e3', ' 5', digits only, …) is stored and read as exactly that text -/
+theorem C01_roundtrip_ForeignKey_strId (s : Str) (h0 : 0 ∉ s) : readBack .fkStr (.str s) = .ok (.str s) :=
+  readBack_fkStr s h0
+
+example : readBack .fkStr (.str [48, 48, 55]) = .ok (.str [48, 48, 55]) := C01_roundtrip_ForeignKey_strId _ (by decide)
+example : readBack .fkIntS (.int 5) = .ok (.int 5) := C01_roundtrip_ForeignKey _ (Or.inr rfl) _ (by decide)
 
 /-- None is NULL is None, for every column type -/
 theorem C01_roundtrip_None (T : ColT) : readBack T .none = .ok .none := readBack_none T
@@ -167,7 +179,9 @@ theorem C01_accepted_readable_partial (T : ColT) (x y : PyVal) (hw : wf x)
   | pickle => exact accepted_pickle x y hw h
   | uuid => exact accepted_uuid x y hw h
   | json => exact accepted_json x y hw h
-  | fkInt => exact accepted_fk x y hk h
+  | fkInt => exact accepted_fk _ (Or.inl rfl) x y hk h
+  | fkIntS => exact accepted_fk _ (Or.inr rfl) x y hk h
+  | fkStr => exact accepted_fkStr x y hw h
 
 /-- non-vacuity: a datetime given to a DateCol is accepted and normalised to its date -/
 example : Readable .date (.datetime 2020 1 2 3 4 5 6) (.date 2020 1 2) :=
